@@ -69,7 +69,7 @@ _add("laddmul2.rhl laddmul2.ra", "laddmul2", "laddmul", "3d2", 3, 1, flags="w")
 _add("mul.abc mul.ab mul.op* mul.op*= mul.alias mul.alias2", "mul", "mul", "2", 1, 1)
 _add("mul.self", "mul", "mul", "self2", 1, 1)
 _add("addmul.abc", "addmul", "addmul", "3", 1, 1)
-_add("addmul_w.abc", None, "addmul_w", "3w", 1, 1)
+_add("addmul_w.abc", "addmul_w", "addmul_w", "3w", 1, 1)
 _add("lmul_w.ra", "lmul_w", "lmul_w", "1w", 2, 1)
 _add("lmul_w.a", "lmul_w", "lmul_w", "1w", 2, 1, flags="w")
 _add("mul_w.abc mul_w.ab mul_w.op* mul_w.op*r mul_w.op*=", "lmul_w", "lmul_w", "1w", 1, 1)
@@ -201,7 +201,7 @@ NTYPES = {"u8": (3, 0, 2**8 - 1, False, 8), "u16": (3, 0, 2**16 - 1, False, 16),
 NOPS = {"addf": ("add_w", 2, 2), "addo": ("op_add_si", 1, 1), "subf": ("sub_w", 2, 2), "subo": ("op_sub2", 2, 2),
         "mulf": ("lmul_w", 2, 2), "mulo": ("op_mul_si", 1, 1), "divf": ("div_w", 2, 2), "divo": ("op_div_si", 1, 1),
         "modo": ("op_mod_w", 1, 1), "sdivo": ("sdiv_q_si", 1, 1), "cmp": ("cmp_n", 2, 2), "bit": ("bit_n", 4, 3),
-        "ctor": ("ctor_n", 3, 1), "shl": ("shl", 1, 1), "shr": ("shr2", 2, 2), "expw": ("exp_mod_n", 1, 1)}
+        "ctor": ("ctor_n", 3, 1), "shl": ("shl_cnt", 1, 1), "shr": ("shr2_cnt", 2, 2), "expw": ("exp_mod_n", 1, 1)}
 for _ty, (_part, _lo, _hi, _sg, _bits) in NTYPES.items():
     for _op, (_m, _nres, _mres) in NOPS.items():
         if (_op in ("shl", "shr") and _ty == "dbl") or (_op == "expw" and (_sg or _ty == "bool")):
